@@ -78,29 +78,14 @@ def matchDecl (env : Env) (r : Rule) : Option Bool :=
   if as.any (· == none) || is.any (· == none) then none
   else some ((r.assign.isEmpty || as.any (· == some true)) && !(is.any (· == some true)))
 
-def targetName : Val → String
-  | .host n => n
-  | .service h s => h ++ "!" ++ s
-  | _ => "?"
+/-- What is observed of a created object when everything is as the property demands: `hn`/`sn` are what
+    `host.name`/`service.name` must have been in the rule body ("with the target object in scope"). -/
+def render (c : Created) : ObjObs :=
+  { src := c.src, name := targetName c.target ++ "!" ++ c.name, k := c.k, v := c.v
+    hn := some (targetHostName c.target), sn := targetServiceName c.target }
 
-def targetHostName : Val → String
-  | .host n => n
-  | .service h _ => h
-  | _ => "?"
-
-def lookupBind (binds : List (String × Val)) (x : String) : Val :=
-  if x = "" then .empty else (bindAll binds (fun _ => none) x).getD .empty
-
-def targetServiceName : Val → Option String
-  | .service _ s => some s
-  | _ => none
-
-/-- The object the property expects for a matching triple; `hn`/`sn`: what `host.name`/`service.name`
-    must have been in the rule body ("with the target object in scope"). -/
-def expectedObj (r : Rule) (t : Val) (i : Inst) : ObjObs :=
-  { src := r.src, name := targetName t ++ "!" ++ r.name ++ i.key
-    k := lookupBind i.binds r.fkvar, v := lookupBind i.binds r.fvvar
-    hn := some (targetHostName t), sn := targetServiceName t }
+/-- The object the property expects for a matching triple. -/
+def expectedObj (r : Rule) (t : Val) (i : Inst) : ObjObs := render (mkCreated 0 r t i)
 
 /-- same object: type, name and loop variables -/
 def coreEq (e o : ObjObs) : Bool := e.src == o.src && e.name == o.name && e.k == o.k && e.v == o.v
@@ -108,20 +93,30 @@ def coreEq (e o : ObjObs) : Bool := e.src == o.src && e.name == o.name && e.k ==
 /-- where the body recorded `host.name` / `service.name` they are the target's -/
 def scopeEq (e o : ObjObs) : Bool := (o.hn.isNone || o.hn == e.hn) && (o.sn.isNone || o.sn == e.sn)
 
-/-- Per (rule, target, instance): `none` undefined, `some none` no object, `some (some o)` object `o`. -/
-def declRule (w : World) (r : Rule) (t : Val) : List (Option (Option ObjObs)) :=
+/-- Per (rule, target, instance): `none` undefined, `some .skip` no object, `some (.create c)` object `c`. -/
+def declInst (w : World) (id : Nat) (r : Rule) (t : Val) (i : Inst) : Option Outcome :=
+  (matchDecl (instEnv w r t i) r).map fun b => if b then .create (mkCreated id r t i) else .skip
+
+def declRule (w : World) (id : Nat) (r : Rule) (t : Val) : List (Option Outcome) :=
   match instances r t with
   | none => [none]
-  | some is => is.map fun i => (matchDecl (instEnv w r t i) r).map fun b =>
-      if b then some (expectedObj r t i) else none
+  | some is => is.map (declInst w id r t)
 
-def declAll (w : World) (rules : Rules) (inv : Inventory) : List (Option (Option ObjObs)) :=
-  rules.flatMap fun p => (targets inv p.2.tgt).flatMap fun t => declRule w p.2 t
+def declAll (w : World) (rules : Rules) (inv : Inventory) : List (Option Outcome) :=
+  rules.flatMap fun p => (targets inv p.2.tgt).flatMap fun t => declRule w p.1 p.2 t
 
-/-- `none`: the property is silent about which objects exist. -/
+def unwrap (d : List (Option Outcome)) : List Outcome := d.filterMap id
+
+/-- Which objects the property expects, in two rounds: the services expected from the `apply Service` rules
+    are targets of the `to Service` rules.  `none`: the property is silent about which objects exist. -/
+def expectedCreated (w : World) (rules : Rules) (inv : Inventory) : Option (List Created) :=
+  let d₁ := declAll w rules inv
+  if !d₁.all Option.isSome then none else
+  let d₂ := declAll w rules (extend inv (unwrap d₁))
+  if !d₂.all Option.isSome then none else some ((unwrap d₂).filterMap Outcome.created?)
+
 def expectedObjs (w : World) (rules : Rules) (inv : Inventory) : Option (List ObjObs) :=
-  let d := declAll w rules inv
-  if d.any (· == none) then none else some (d.filterMap fun x => x.join)
+  (expectedCreated w rules inv).map fun l => l.map render
 
 /-- The generated Dependency bodies all name the host `depParent` as parent; a Dependency on that host
     itself is a self-dependency, which the cycle check (property C07) rejects — there C16 is silent.
@@ -136,7 +131,7 @@ def checkExact (exp : List ObjObs) (obs : Obs) : Option Clause :=
   | some l =>
     if !(exp.all fun e => l.any (coreEq e)) then some .noMissingObject
     else if !(l.all fun o => exp.any fun e => coreEq e o) then some .noExtraObject
-    else if !(l.all fun o => exp.all fun e => !coreEq e o || scopeEq e o) then some .targetInScope
+    else if !(l.all fun o => exp.any fun e => coreEq e o && scopeEq e o) then some .targetInScope
     else none
 
 /-- The property on the observations of one configuration; `none` = holds, else the first violated clause. -/
